@@ -73,11 +73,14 @@ def prog_case(prog: Dict[str, Any]) -> Dict[str, Any]:
 
 
 def unit_fn(unit: Tuple[str, List[Dict[str, Any]]]) -> Part:
-    name, progs = unit
+    name, progs = unit[0], unit[1]
+    again = name.endswith("@refreshed") or any(p.get("refreshed") for p in progs)
     part = Part()
     bk = backend()
     try:
         L = harness.Loaded(progs, library_for(progs))
+        if again:  # the database is refreshed a second time before it is used: nothing may change
+            L.db.refresh()
     except Exception as ex:  # a program the loader refuses: localise it
         for p in progs:
             try:
@@ -93,11 +96,22 @@ def unit_fn(unit: Tuple[str, List[Dict[str, Any]]]) -> Part:
         for t in p["tags"]:
             part.add("tags", t)
     part.count("transitions", part.counts.get("evaluations", 0))
+    if again:
+        part.count("units_after_a_second_refresh")
+        for k in list(part.viol):  # cases found here need the second refresh to replay
+            v = part.viol[k]
+            if isinstance(v[1], dict) and isinstance(v[1].get("program"), dict):
+                v[1]["program"]["refreshed"] = True
+            part.viol[k + "/after-second-refresh"] = part.viol.pop(k)
     return part
 
 
 def units_for(ctx: Ctx) -> List[Tuple[str, List[Dict[str, Any]]]]:
-    return space.layer_a_units(ctx.quick) + space.layer_b_units(ctx.quick) + space.layer_c_units(ctx.quick) + space.layer_c_units(ctx.quick, overlap=True)
+    u = space.layer_a_units(ctx.quick) + space.layer_b_units(ctx.quick) + space.layer_c_units(ctx.quick) + space.layer_c_units(ctx.quick, overlap=True)
+    # the same descriptions after Database.refresh() has been called a second time (quick: every fifth composition unit)
+    c = space.layer_c_units(ctx.quick)
+    u += [(n + "@refreshed", p) for n, p in (c[::5] if ctx.quick else c)]
+    return u
 
 
 contextualize = make_contextualize(PROPERTY, lambda quick: units_for(__import__("types").SimpleNamespace(quick=quick)))
@@ -166,6 +180,7 @@ def replay(case: Any) -> List[Tuple[str, str]]:
         return [(k, v[2]) for k, v in part.viol.items()]
     p = case["program"]
     prog = {"pid": p["pid"], "dops": p["dops"], "params": p["params"], "kind": p.get("kind", "REQUEST"),
-            "request": unjval(p.get("request")), "tags": p["tags"], "library": p.get("library", False), "assign": [unjval(case["values"])] if case["values"] is not None else []}
+            "request": unjval(p.get("request")), "tags": p["tags"], "library": p.get("library", False), "assign": [unjval(case["values"])] if case["values"] is not None else [],
+            "refreshed": p.get("refreshed", False)}
     part = unit_fn(("replay", [prog]))
     return [(k, v[2]) for k, v in part.viol.items()]
